@@ -172,15 +172,64 @@ Definition rex_mut_req (setspace x : list Z) (u : list Q) (p : Q) : nat * nat * 
   let mba := map (fun e => negb (memZ e x)) setspace in
   (length (compress mab x), length (compress mba setspace), length (filter (fun b => b) (mex_of u p))).
 
-(** MutatorA / MutatorB .hillclimb (used by NSGA2MutatorA/BSubsetGeneticAlgorithm):
-      alleles = setspace[~in1d(setspace, x)];  Xhc[:,:] = x;  Xhc[:,lociix] = alleles[alleleix]
-    The assignment addresses whole COLUMNS, so every row of Xhc receives all nhcstep replacements (a repeated
-    column index keeps the last value) and all rows are equal; whichever row the non-dominated selection
-    picks, the returned chromosome is this row. [lociix]/[alleleix] are the tiled_choice draws. *)
-Definition mutAB_row (x alleles : list Z) (lociix alleleix : list nat) : list Z :=
+(** MutatorA / MutatorB .hillclimb (used by NSGA2MutatorA/BSubsetGeneticAlgorithm), repaired code:
+      alleles = setspace[~in1d(setspace, x)];  if len(alleles) == 0: return x
+      Xhc[:,:] = x;  Xhc[arange(nhcstep), lociix] = alleles[alleleix]
+    Trial row t is x with locus lociix[t] exchanged for alleles[alleleix[t]] (one exchange per row).
+    [lociix]/[alleleix] are the tiled_choice draws. *)
+Definition mutAB_trials (x alleles : list Z) (lociix alleleix : list nat) : list (list Z) :=
+  map (fun la => set_nth (fst la) x (nth (snd la) alleles 0)) (combine lociix alleleix).
+(** NonDominatedSorting().do(F, only_non_dominated_front=True): positions of the rows that no other row
+    Pareto-dominates, in ascending order *)
+Fixpoint all2z (f : Z -> Z -> bool) (a b : list Z) : bool :=
+  match a, b with x :: s, y :: t => f x y && all2z f s t | [], [] => true | _, _ => false end.
+Fixpoint any2z (f : Z -> Z -> bool) (a b : list Z) : bool :=
+  match a, b with x :: s, y :: t => f x y || any2z f s t | _, _ => false end.
+Definition zdom (f g : list Z) : bool := all2z Z.leb f g && any2z Z.ltb f g.
+Definition front_ix (F : list (list Z)) : list nat :=
+  filter (fun i => negb (existsb (fun g => zdom g (nth i F [])) F)) (seq 0 (length F)).
+(** numpy.argmin of a vector: first position of the minimum *)
+Fixpoint argmin_from (best : nat) (bv : Z) (i : nat) (l : list Z) : nat :=
+  match l with
+  | [] => best
+  | v :: t => if v <? bv then argmin_from i v (S i) t else argmin_from best bv (S i) t
+  end.
+Definition argminZ (l : list Z) : nat := match l with [] => O | v :: t => argmin_from O v 1%nat t end.
+(** MutatorA: selix = np.random.choice(len(front)); the chosen trial row is front[selix] *)
+Definition mutA_sel (F : list (list Z)) (draw : nat) : nat := nth draw (front_ix F) O.
+(** MutatorB: minix = argmin(F[front], axis=0); selix = np.random.choice(minix) = minix[draw] *)
+Definition mutB_sel (F : list (list Z)) (draw : nat) : nat :=
+  let fr := front_ix F in
+  nth (argminZ (map (fun i => nth draw (nth i F []) 0) fr)) fr O.
+(** the whole step; [sel] maps the trial rows' objective vectors and the last draw to a row position *)
+Definition mutAB_hillclimb (sel : list (list Z) -> nat -> nat) (ev : list Z -> evalT)
+    (setspace x : list Z) (lociix alleleix : list nat) (draw : nat) : list Z :=
+  match complement setspace x with
+  | [] => x
+  | alleles =>
+      let T := mutAB_trials x alleles lociix alleleix in
+      nth (sel (map (fun t => e_obj (ev t)) T) draw) T x
+  end.
+Definition mutA_hillclimb := mutAB_hillclimb mutA_sel.
+Definition mutB_hillclimb := mutAB_hillclimb mutB_sel.
+(** evalfn calls of the step: the input chromosome, then every trial row *)
+Definition mutAB_calls (setspace x : list Z) (lociix alleleix : list nat) : list (list Z) :=
+  match complement setspace x with
+  | [] => [x]
+  | alleles => x :: mutAB_trials x alleles lociix alleleix
+  end.
+(** size of the population the last np.random.choice draws from: the front (A) *)
+Definition mutA_choice_n (ev : list Z -> evalT) (setspace x : list Z) (lociix alleleix : list nat) : nat :=
+  length (front_ix (map (fun t => e_obj (ev t)) (mutAB_trials x (complement setspace x) lociix alleleix))).
+
+(** the FORMER code (before the repair), kept as a regression witness:
+      Xhc[:,lociix] = alleles[alleleix]
+    addressed whole COLUMNS, so every row of Xhc received all nhcstep replacements (a repeated column index
+    keeps the last value) and all rows were equal *)
+Definition old_mutAB_row (x alleles : list Z) (lociix alleleix : list nat) : list Z :=
   fold_left (fun row la => set_nth (fst la) row (nth (snd la) alleles 0)) (combine lociix alleleix) x.
-Definition mutAB_hillclimb (setspace x : list Z) (lociix alleleix : list nat) : list Z :=
-  mutAB_row x (complement setspace x) lociix alleleix.
+Definition old_mutAB_hillclimb (setspace x : list Z) (lociix alleleix : list nat) : list Z :=
+  old_mutAB_row x (complement setspace x) lociix alleleix.
 (** tiled_choice(a, size): size // a permutations of range(a) followed by size % a distinct values *)
 Fixpoint chunks (a : nat) (fuel : nat) (l : list nat) : list (list nat) :=
   match fuel with
@@ -205,7 +254,8 @@ Definition rhe (q : Q) : Z :=
 Definition int_round (xs : list Q) : list Z := map rhe xs.
 
 (** ** result monitor *)
-(** Pareto dominance on objective vectors (all solutions returned by pymoo are feasible) *)
+(** Pareto dominance on objective vectors (pymoo returns either feasible members only, or — when none is
+    feasible — the single least-violating member, for which the test is trivially true) *)
 Fixpoint all2 {A} (f : A -> A -> bool) (a b : list A) : bool :=
   match a, b with x :: s, y :: t => f x y && all2 f s t | [], [] => true | _, _ => false end.
 Fixpoint any2 {A} (f : A -> A -> bool) (a b : list A) : bool :=
